@@ -435,6 +435,10 @@ class Interp:
                 items = [Q.seq_get(v, i) for i in range(n)]
             elif v is None:
                 raise PyRaise(SExc(TypeError, ("cannot unpack non-iterable NoneType object",)))
+            elif isinstance(v, SOpaque) and hasattr(__import__("pyvc.api", fromlist=["PROTOCOLS"]).PROTOCOLS.get(v.kind), "unpack"):
+                # an opaque individual its protocol can take apart (`unpack(ip, st, obj, n)` -> n items, raising the
+                # ValueError / TypeError CPython raises when it is not a sequence of exactly n items)
+                items = __import__("pyvc.api", fromlist=["PROTOCOLS"]).PROTOCOLS[v.kind].unpack(self, st, v, n)
             else:
                 raise Unsupported(f"unpack of {type(v).__name__}")
             for e, x in zip(t.elts, items):
@@ -909,6 +913,14 @@ class Interp:
             return tuple(it)
         if isinstance(it, ModelObj):
             return it.py_iter(self, st)
+        if isinstance(it, SOpaque):
+            # an opaque individual that its protocol knows how to iterate (`iter(ip, st, obj)` -> a sequence value),
+            # e.g. a node of an algebraic data type whose children are individuals of the same kind
+            from .api import PROTOCOLS as _P
+
+            p = _P.get(it.kind)
+            if p is not None and hasattr(p, "iter"):
+                return p.iter(self, st, it)
         if isinstance(it, DRef):
             return tuple(it.d.keys())
         if isinstance(it, dict):
@@ -1757,7 +1769,22 @@ class Interp:
         names = {x.id for x in ast.walk(g.target) if isinstance(x, ast.Name)}
         uses_target = any(isinstance(x, ast.Name) and x.id in names for x in ast.walk(e.elt))
 
+        # the elements are evaluated on demand: a versioned model object (a dict with symbolic keys) that `elt` reads
+        # must still hold the value it had when the comprehension was built, else the lazy reading would differ from
+        # CPython's eager one -> Unsupported
+        versions = []
+        for nm in sorted({x.id for x in ast.walk(e) if isinstance(x, ast.Name)}):
+            try:
+                ov = fr.lookup(nm)
+            except PyRaise:
+                continue
+            if isinstance(ov, ModelObj) and hasattr(ov, "py_version"):
+                versions.append((nm, ov, ov.py_version()))
+
         def getter(i):
+            for nm, ov, ver in versions:
+                if ov.py_version() is not ver:
+                    raise Unsupported(f"comprehension over a sequence of symbolic length reads `{nm}`, which was mutated after the comprehension was built")
             cfr = Frame(fr.fn, fr.mod, parent=fr)
             cfr.self_obj = fr.self_obj
             self.assign_target(V.cur(), g.target, Q.seq_get(seq, i), cfr)
@@ -1765,6 +1792,7 @@ class Interp:
 
         r = SSeq(n, getter, None, None, "comp")
         r.lazy = True
+        r.comp_over = seq.seq if isinstance(seq, LRef) else seq  # provenance (pyvc.fmap: pairs computed from m.items())
         h = getattr(self.task.c, "comprehension_sum", None)
         if h is not None:
             sv = h(self, st, e, fr, seq)
